@@ -385,6 +385,7 @@ type job struct {
 	base tcase
 	k    int   // number of remote nodes
 	tys  []int // object types (nil = default of the kind)
+	ans  []int // answer kinds of the remote nodes (nil = all)
 }
 
 var stopProf = func() {}
@@ -414,7 +415,7 @@ func main() {
 	for n := 1; n <= 5; n++ {
 		genLists(1, []int{n}, 5, func(lists [][]int, k int) {
 			for rep := 1; rep <= 3 && rep <= n; rep++ {
-				jobs = append(jobs, job{tcase{Kind: "rep", Lists: lists, Reps: []int{rep}}, k, nil})
+				jobs = append(jobs, job{tcase{Kind: "rep", Lists: lists, Reps: []int{rep}}, k, nil, nil})
 			}
 		})
 	}
@@ -439,7 +440,7 @@ func main() {
 					}
 					for r1 := 1; r1 <= 3 && r1 <= n1; r1++ {
 						for r2 := 1; r2 <= 3 && r2 <= n2; r2++ {
-							jobs = append(jobs, job{tcase{Kind: "rep", Lists: lists, Reps: []int{r1, r2}}, k, b.tys})
+							jobs = append(jobs, job{tcase{Kind: "rep", Lists: lists, Reps: []int{r1, r2}}, k, b.tys, nil})
 						}
 					}
 				})
@@ -453,9 +454,9 @@ func main() {
 		for n := tot; n <= 5; n++ {
 			genLists(1, []int{n}, 5, func(lists [][]int, k int) {
 				for p := 0; p < tot; p++ {
-					jobs = append(jobs, job{tcase{Kind: "ec-part", Lists: lists, ECData: rule[0], ECParity: rule[1], Part: p}, k, nil})
+					jobs = append(jobs, job{tcase{Kind: "ec-part", Lists: lists, ECData: rule[0], ECParity: rule[1], Part: p}, k, nil, nil})
 				}
-				jobs = append(jobs, job{tcase{Kind: "ec-plain", Lists: lists, ECData: rule[0], ECParity: rule[1]}, k, nil})
+				jobs = append(jobs, job{tcase{Kind: "ec-plain", Lists: lists, ECData: rule[0], ECParity: rule[1]}, k, nil, nil})
 			})
 		}
 	}
@@ -472,21 +473,23 @@ func main() {
 	}
 	mixes := []mx{
 		{1, 1, 3, 4, 3, [][2]int{{1, 1}, {2, 1}}},
-		{2, 1, 2, 3, 3, [][2]int{{1, 1}}},
-		{1, 2, 2, 3, 3, [][2]int{{1, 1}}},
+		{2, 1, 2, 3, 2, [][2]int{{1, 1}}},
+		{1, 2, 2, 3, 2, [][2]int{{1, 1}}},
 		{0, 2, 0, 3, 3, [][2]int{{1, 1}, {2, 1}}},
 	}
-	mixTxt := "1 REP (1..3 nodes)+1 EC (1/1 or 2/1, total..4 nodes); 2 REP (1..2)+1 EC 1/1 (2..3); 1 REP (1..2)+2 EC 1/1 (2..3); 2 EC rules (1/1, 2/1; total..3 nodes); <=3 remote nodes + local"
+	mixTxt := "1 REP (1..3 nodes)+1 EC (1/1 or 2/1, total..4 nodes) over <=3 remotes+local; 2 REP (1..2)+1 EC 1/1 (2..3) and 1 REP (1..2)+2 EC 1/1 (2..3) over <=2 remotes+local; 2 EC rules (1/1, 2/1; total..3 nodes) over <=3 remotes+local; remote answers {has, 404+replica accepted, flagged maintenance, error}"
 	if r.Thorough() {
 		mixes = []mx{
-			{1, 1, 4, 5, 4, [][2]int{{1, 1}, {2, 1}}},
-			{2, 1, 3, 3, 4, [][2]int{{1, 1}, {2, 1}}},
-			{1, 2, 3, 3, 4, [][2]int{{1, 1}, {2, 1}}},
-			{0, 2, 0, 4, 4, [][2]int{{1, 1}, {2, 1}}},
+			{1, 1, 4, 4, 4, [][2]int{{1, 1}, {2, 1}}},
+			{2, 1, 2, 3, 3, [][2]int{{1, 1}, {2, 1}}},
+			{1, 2, 2, 3, 3, [][2]int{{1, 1}, {2, 1}}},
+			{0, 2, 0, 3, 4, [][2]int{{1, 1}, {2, 1}}},
 		}
-		mixTxt = "1 REP (1..4 nodes)+1 EC (1/1 or 2/1, total..5 nodes); 2 REP (1..3)+1 EC (total..3); 1 REP (1..3)+2 EC (total..3); 2 EC rules (total..4 nodes); <=4 remote nodes + local"
+		mixTxt = "1 REP (1..4 nodes)+1 EC (1/1 or 2/1, total..4 nodes) over <=4 remotes+local; 2 REP (1..2)+1 EC (total..3) and 1 REP (1..2)+2 EC (total..3) over <=3 remotes+local; 2 EC rules (total..3 nodes) over <=4 remotes+local; remote answers {has, 404+replica accepted, flagged maintenance, error}"
 	}
-	for _, m := range mixes {
+	mixAns := []int{aHas, aNFReplOK, aMaintFlag, aError}
+	for mi, m := range mixes {
+		before := len(jobs)
 		n := m.nRep + m.nEC
 		lens := make([]int, n)
 		ecs := make([][2]int, m.nEC)
@@ -510,12 +513,12 @@ func main() {
 					if m.nRep > 0 {
 						tys = []int{0, 1, 2, 3}
 					}
-					jobs = append(jobs, job{base, k, tys})
+					jobs = append(jobs, job{base, k, tys, mixAns})
 					for ri, e := range ecs {
 						for pi := 0; pi < e[0]+e[1]; pi++ {
 							b := base
 							b.PartRule, b.Part = ri, pi
-							jobs = append(jobs, job{b, k, []int{0}})
+							jobs = append(jobs, job{b, k, []int{0}, mixAns})
 						}
 					}
 					return true
@@ -543,6 +546,17 @@ func main() {
 			}
 		}
 		recLen(0)
+		if os.Getenv("VERIF_COUNT") != "" {
+			var n int64
+			for _, j := range jobs[before:] {
+				c := int64(len(j.tys))
+				for i := 0; i < j.k; i++ {
+					c *= int64(len(j.ans))
+				}
+				n += c
+			}
+			fmt.Println("mix", mi, m, "jobs", len(jobs)-before, "cases", n)
+		}
 	}
 	mixedJobs := len(jobs) - oneRuleJobs - twoRuleJobs - ecJobs
 	if os.Getenv("VERIF_COUNT") != "" { // developer aid
@@ -550,7 +564,7 @@ func main() {
 		for _, j := range jobs[len(jobs)-mixedJobs:] {
 			c := int64(1)
 			for i := 0; i < j.k; i++ {
-				c *= nAns
+				c *= int64(len(j.ans))
 			}
 			n += c * int64(len(j.tys))
 		}
@@ -558,6 +572,8 @@ func main() {
 		os.Exit(0)
 	}
 
+	// simplest first: if the time budget ever cuts the run, only the largest placements are lost
+	sort.SliceStable(jobs, func(a, b int) bool { return jobs[a].k < jobs[b].k })
 	var mu sync.Mutex
 	traces := map[uint64]struct{}{}
 	classes := map[string]int64{}
@@ -584,6 +600,9 @@ func main() {
 		sizes := make([]int, j.k)
 		for i := range sizes {
 			sizes[i] = nAns
+			if j.ans != nil {
+				sizes[i] = len(j.ans)
+			}
 		}
 		shape := fmt.Sprint(j.base.Kind, j.base.Lists, j.base.Reps, j.base.ECData, j.base.ECParity, j.base.Part, j.base.ECs, j.base.PartRule)
 		one := func(c tcase) {
@@ -645,6 +664,11 @@ func main() {
 		enumx.Product(sizes, func(idx []int) bool {
 			c := j.base
 			c.Ans = append([]int(nil), idx[:j.k]...)
+			if j.ans != nil {
+				for i := range c.Ans {
+					c.Ans[i] = j.ans[c.Ans[i]]
+				}
+			}
 			for _, ty := range tys {
 				for _, sh := range shs {
 					for _, nm := range nms {
@@ -689,9 +713,9 @@ func main() {
 	r.Rule(fmt.Sprintf("placements up to renaming of remote nodes: ONE REP rule = every list of 1..5 nodes with the local node at every position or absent x REP 1..3 (full product); TWO REP rules = every ordered pair of %s, lists sharing nodes in every way, REP 1..3 each; EC-only container with rule 2/1, 1/1 or 1/2 over 2..5 nodes: every part index, and TOMBSTONE/LOCK/LINK objects; MIXED policies (REP lists + EC lists, list lengths on both sides of each other, lists overlapping in every way): %s, object = REGULAR/TOMBSTONE/LOCK/LINK or any part of any EC rule; x every remote node answering one of {has, 404+replica accepted, 404+replica refused, flagged maintenance, NODE_UNDER_MAINTENANCE status, error} x type REGULAR/TOMBSTONE/LOCK/LINK x 1-2 local shards (2 only for two-rule and ec-plain cases) x in/out of the network map when no list has the local node. distinct non-trivial = distinct (placement shape, type, policer trace [nodes HEADed, headers read, replicas sent/acked, deletes]) with at least one remote node contacted", bounds2txt, mixTxt))
 	r.Exhaustive(!expired.Load())
 	r.Assume("every node answers the same way each time it is asked within one policer pass (per-node deterministic answers)",
-		"GetNodesForObject succeeds (missing-container clean-up is outside the property); mixed REP+EC policies and objects that are invalid for the policy (EC attributes without EC rule, REGULAR non-part object in an EC-only container: removed as garbage by design) are not enumerated",
+		"GetNodesForObject succeeds (missing-container clean-up is outside the property); objects that are invalid for the policy (EC attributes without EC rule, REGULAR non-part object in an EC-only container: removed as garbage by design) are not enumerated; mixed REP+EC policies ARE enumerated although the Inner Ring refuses to register them today (the policer handles them)",
 		"sibling EC parts are healthy, so checkECParts returns without recreating anything",
-		"for a node listed by no rule the text gives no number: the oracle only demands one real (non-maintenance, non-error) confirmation; for TOMBSTONE objects on EC lists it demands 1")
+		"requirements are derived from the policy, never from the policer's intermediate arrays: LOCK/LINK stay on every node of every list, TOMBSTONE on every node of every EC list, a REP rule listing the local node needs REP confirmed other holders of its own list, an EC part needs one confirmed holder in its own rule's list; a copy no rule asks for (incl. a whole REGULAR object on a node that only EC rules list) may go after one real (non-maintenance, non-error) confirmation")
 	stopProf()
 	r.Finish()
 }
